@@ -16,10 +16,18 @@
  *   has returned a status the request is inactive.  cancel() on a trivial handler only calls
  *   MPI_Cancel: recorded in a ghost flag, the request stays as it is.
  *   ASSUMED (MPI matching): the status of a completed receive posted with a specific source / tag
- *   carries that source / tag; with MPI_ANY_TAG (-1) the tag is arbitrary.  The receive buffer of
- *   irecv(source, tag, value) is overwritten with an arbitrary value when the receive completes.
- *   "Arbitrary" = the ghost prophecy variables MPI_next_tag / MPI_next_value (nondeterministic, consumed and
- *   re-havocked at each completion) so that a contract can name the incoming message.
+ *   carries that source / tag; with MPI_ANY_TAG (-1) the tag is arbitrary.
+ *   BUFFER OWNERSHIP (MPI-3.1 section 3.7.2: between posting a non-blocking receive and the completion reported by test/wait the
+ *   program must not access the receive buffer; the library may write it at any moment in between).  The model lets the library
+ *   write the message into the buffer at one of the two extreme moments, chosen nondeterministically per receive:
+ *     EAGER  -- during irecv itself (the message was already queued), or
+ *     LATE   -- when test() reports the completion;
+ *   the request remembers the choice (`eager`) and the message (`msg`).  A program store into the buffer between the two
+ *   moments therefore destroys an eagerly delivered message: contracts state "eager => buffer == msg" while the receive is
+ *   pending and "buffer == msg" at completion.  Nothing is assumed about WHEN a message arrives.
+ *   "Arbitrary" = the ghost prophecy variables MPI_next_tag (tag reported at the next ANY_TAG completion), MPI_next_value /
+ *   MPI_next_eager (payload / delivery moment of the next receive that is posted with a buffer); nondeterministic, consumed and
+ *   re-havocked at each use, so that a contract can name the incoming message.
  * boost::mpi::communicator: rank(), size(), send (blocking, returns), irecv (returns an ACTIVE request).
  *   send is a MONITOR: ghost log (below) + a hook VERIF_mpi_send_hook() that the spec file defines.
  *   NOT asserted: validity of the destination rank (0 <= dest < size()).
@@ -243,17 +251,20 @@ typedef struct MpiReq {
   int source, tag;         /* ghost: what the receive was posted for */
   _Bool has_buf;           /* posted with a receive buffer (irecv with a value) */
   _Bool cancelled;         /* ghost: cancel() was called on it */
+  _Bool eager;             /* ghost (has_buf): the message was written into the buffer at post time */
+  int msg;                 /* ghost (has_buf): the payload this receive gets */
 } MpiReq;
 long MPI_n_outstanding;             /* ghost: receives posted - receives reported complete */
-int MPI_next_tag, MPI_next_value;   /* ghost (prophecy): tag / payload of the next message that completes an ANY_TAG receive;
+int MPI_next_tag, MPI_next_value;   /* ghost (prophecy): tag reported by the next ANY_TAG completion / payload of the next receive posted with a buffer;
                                        arbitrary unless a contract constrains them (assumed peer behaviour, stated there) */
+_Bool MPI_next_eager;               /* ghost (prophecy): the next receive posted with a buffer gets its message at post time */
 unsigned long MPI_n_posted;         /* ghost: number of irecv calls */
-static inline MpiReq MpiReq_ctor0(void) { MpiReq r = { 0, 0, 0, 0, 0 }; return r; }
+static inline MpiReq MpiReq_ctor0(void) { MpiReq r = { 0, 0, 0, 0, 0, 0, 0 }; return r; }
 /* spec-file hooks: the receive buffer handed to irecv(source, tag, value) / delivery of the payload into it.
  * (The model does not keep the buffer POINTER in the request: CBMC cannot follow a pointer that is only known through
  * an equality in a pre-condition.  The spec's post hook asserts which object the buffer is, its deliver hook writes it.) */
 void VERIF_mpi_post_hook(int source, int tag, int *buf);
-void VERIF_mpi_deliver_hook(MpiReq *r, int value);
+void VERIF_mpi_deliver_hook(MpiReq *r, int value);      /* r == NULL: eager delivery during irecv (the request object does not exist yet) */
 /* spec-file monitor: called before a request object is overwritten (operator=) */
 void VERIF_mpi_store_hook(MpiReq *dst, MpiReq src);
 static inline MpiReq *MpiReq_assign(MpiReq *dst, MpiReq src)
@@ -274,7 +285,7 @@ static inline OptStatus MpiReq_test_(MpiReq *r)
   o.st.source_ = r->source;                                         /* ASSUMED: MPI matching (specific source) */
   if (r->tag != MPI_ANY_TAG_) o.st.tag_ = r->tag;                   /* ASSUMED: MPI matching (specific tag) */
   else { o.st.tag_ = MPI_next_tag; MPI_next_tag = nondet_int(); }   /* any tag: the prophecy value, consumed */
-  if (r->has_buf) { VERIF_mpi_deliver_hook(r, MPI_next_value); MPI_next_value = nondet_int(); }   /* the message payload lands in the buffer */
+  if (r->has_buf && !r->eager) VERIF_mpi_deliver_hook(r, r->msg);   /* LATE delivery: the payload lands in the buffer now */
   REACH("request completes");
   return o;
 }
@@ -342,8 +353,13 @@ static inline void Comm_send2(Comm *c, int dest, int tag) { Comm_send_(c, dest, 
 static inline void Comm_send3(Comm *c, int dest, int tag, int value) { Comm_send_(c, dest, tag, 1, value); }
 static inline MpiReq Comm_irecv_(Comm *c, int source, int tag, int *buf)
 {
-  MpiReq r; r.active = 1; r.source = source; r.tag = tag; r.has_buf = (buf != (int *)0); r.cancelled = 0;
-  if (buf) VERIF_mpi_post_hook(source, tag, buf);
+  MpiReq r; r.active = 1; r.source = source; r.tag = tag; r.has_buf = (buf != (int *)0); r.cancelled = 0; r.eager = 0; r.msg = 0;
+  if (buf) {
+    VERIF_mpi_post_hook(source, tag, buf);
+    r.msg = MPI_next_value; MPI_next_value = nondet_int();
+    r.eager = MPI_next_eager; MPI_next_eager = nondet_bool();
+    if (r.eager) { VERIF_mpi_deliver_hook((MpiReq *)0, r.msg); REACH("eager delivery"); }   /* EAGER delivery: the message was already queued */
+  }
   MPI_n_outstanding++; MPI_n_posted++;
   return r;
 }
